@@ -35,7 +35,7 @@ class Prop:
             'all permutations of chains up to 3, sampled beyond); the implementation is compared with the Lean chain '
             'model (distances supplied from pyais.haversine as exact rationals) and with an independent evaluation '
             '"passes iff every filter is satisfied" that uses an independent great-circle formula (cases within '
-            '1e-9 relative of the threshold are skipped); non-trivial = the chain dropped some and kept some')
+            '1e-9 relative of the threshold are skipped); non-trivial = the chain dropped some and kept some ; message id 0 and type sets over 0..63; circles that miss / include a position by 0.2 m; the chain over real sentence objects, over a second stream, and one reader filtered three times')
     assumptions = ['numerical accuracy of haversine (libm sin/cos/asin/sqrt) is differential testing against an '
                    'independent formula, not proof: the chain logic is proved for every distance function']
 
